@@ -26,6 +26,9 @@ structure Cfg where
   popenRcFirst : Bool := true       -- `Popen.wait` starts with `if self.__subproc.returncode is not None: return …`
   popenStoresRc : Bool := true      -- `Popen.wait`: `self.__subproc.returncode = ret` after `super().wait(timeout)`
   popenValidateFirst : Bool := false -- `Popen.wait` rejects a negative timeout BEFORE looking at the stored returncode
+  -- (second extension) shape of `wait_procs`' bookkeeping; obligations `cfg_wait_procs_shape`
+  loopsOverAlive : Bool := true     -- every `for proc in …` iterates `alive`, the name `while` tests and `alive = alive - gone` refreshes
+  aliveIsSet : Bool := true         -- `alive = set(procs)` (between the timeout validation and the callable test), `gone = set()`
 
 def Cfg.i0 (c : Cfg) : Rat := (c.i0n : Rat) / (c.i0d : Rat)
 def Cfg.cap (c : Cfg) : Rat := (c.capn : Rat) / (c.capd : Rat)
